@@ -73,6 +73,13 @@ func (cb *CertificateBuilder) WithKeyTypes(signingType, cryptoType int) (*Certif
 	if cryptoType < 0 {
 		return cb, oops.Errorf("crypto type cannot be negative: %d", cryptoType)
 	}
+	// Key types are 16-bit fields; reject what BuildKeyTypePayload rejects instead of truncating.
+	if signingType > 65535 {
+		return cb, oops.Errorf("signing type exceeds uint16 range: %d", signingType)
+	}
+	if cryptoType > 65535 {
+		return cb, oops.Errorf("crypto type exceeds uint16 range: %d", cryptoType)
+	}
 	cb.certType = CERT_KEY
 	cb.signingType = &signingType
 	cb.cryptoType = &cryptoType
